@@ -170,6 +170,43 @@ func Observe(ctx context.Context, res *exec.Result, sch Schema, run int, o *Obs)
 	}
 }
 
+// ScanAcross scans a result with its public Scanner, calls mid() after k rows
+// (or at once when k = 0) and keeps scanning; only Scanned/ScanErr are filled.
+func ScanAcross(ctx context.Context, res *exec.Result, sch Schema, k int, mid func()) (o Obs) {
+	defer func() {
+		if e := recover(); e != nil {
+			o.ScanErr, o.ErrMsg = "panic", fmt.Sprint(e)
+		}
+	}()
+	o.Err = "ok"
+	sc := res.Scanner()
+	defer sc.Close()
+	ptrs := make([]interface{}, len(sch.Types))
+	vals := make([]reflect.Value, len(sch.Types))
+	for i, c := range sch.Types {
+		vals[i] = reflect.New(goType(c))
+		ptrs[i] = vals[i].Interface()
+	}
+	done := false
+	if k == 0 {
+		mid()
+		done = true
+	}
+	for sc.Scan(ctx, ptrs...) {
+		row := make(Row, len(sch.Types))
+		for i, c := range sch.Types {
+			row[i] = cellOf(c, vals[i].Elem())
+		}
+		o.Scanned = append(o.Scanned, row)
+		if !done && len(o.Scanned) >= k {
+			mid()
+			done = true
+		}
+	}
+	o.ScanErr = ErrClass(sc.Err(), 0)
+	return o
+}
+
 func sideMap(m map[[2]int][]*SideRec) map[string][]SideRec {
 	out := map[string][]SideRec{}
 	for k, vs := range m {
